@@ -14,6 +14,10 @@ class RustPanic(Exception):
         self.msg = msg
 
 
+class BlockedForever(Exception):
+    """a blocking call that can never return in the model (nothing runnable, no timer pending)"""
+
+
 class PathInfeasible(Exception):
     pass
 
